@@ -108,7 +108,7 @@ func c20SeqSub() *engine.Sub {
 							return fmt.Errorf("harness: fixture %s: %s = %q, want a policy refusal", v, op.Name, r)
 						}
 					case strings.HasPrefix(op.Name, "inv.ExecutionAllowed"):
-						if r != "ok" {
+						if r != "ok" && !strings.HasPrefix(r, "ok|") {
 							return fmt.Errorf("harness: fixture %s: %s = %q, want ok", v, op.Name, r)
 						}
 					}
